@@ -51,7 +51,7 @@ func init() {
 				return 200_000
 			}, Run: c19Geometry,
 				Rule: "rendered oracle: offsets at the characteristic points of the requested geometry, stops/spread/shape of the rendered paint; direct and via bytes",
-				Min:  map[string]int64{"linear": 5000, "circular": 5000, "elliptical": 5000, "general": 5000, "via_bytes": 10000, "direct": 10000}},
+				Min:  map[string]int64{"linear": 5000, "circular": 5000, "elliptical": 5000, "general": 5000, "via_bytes": 10000, "direct": 10000, "rectangle_set_after_reset": 10000}},
 		},
 	})
 }
@@ -466,7 +466,16 @@ func c19Geometry(c *run.Ctx, idx uint64) {
 					dirtyDestination(c.Rng(idx^0x5eed), &z, ivg.DefaultPalette)
 					rz.ResetLog()
 				}
-				z.Reset(vb, ivg.DefaultPalette)
+				if idx%4 == 1 {
+					// Reset happens while the Renderer still targets a rectangle of another size;
+					// the rectangle the graphic is drawn into is set afterwards
+					z.SetRasterizer(rz, image.Rect(0, 0, rect.Dx()*2+1, rect.Dy()+3))
+					z.Reset(vb, ivg.DefaultPalette)
+					z.SetRasterizer(rz, rect)
+					c.Count("rectangle_set_after_reset", 1)
+				} else {
+					z.Reset(vb, ivg.DefaultPalette)
+				}
 				err = prog(&z)
 				c.Count("direct", 1)
 			} else {
